@@ -13,7 +13,7 @@ import (
 
 func init() {
 	register("C09", propMeta{
-		Explanation:  "Decides the reachability of the recovery routines from the public entry point, and that recovery finishes what it starts: (R1) typestate of the maintenance guard: every early-return guard of Transaction.onIdle reads Transaction fields; at each call site of onIdle at least one writer of each such field must be able to have executed, otherwise the guard is constant and everything behind it is dead code. The field writers, the begun-state gates of their callers (`!HasBegun()` -> error) and the gate of the calling function are derived from the code; (R2) call-graph reachability: Transaction.Begin reaches onIdle, which reaches doPriorityRollbacks, processExpiredTransactionLogs and transactionLog.rollback; (R3) recovery removes what it recovered: every exit of transactionLog.rollback for a non-nil transaction id passes TransactionLog.Remove of that id; doPriorityRollbacks and priorityRollback remove the priority log only after the registry write of the pre-images succeeded (shared with C08.R3), and the pre-images were logged before the flip (shared with C08.R2); (R4) the log replay undoes every persistent commit step in every last-logged state in which the live rollback undoes it (undo table shared with C07.R1); (R5) the log reader imposes no record-size limit that the writer does not have. (R6) the count delta survives the log encoding (shared with C06.R7); (R7) in onIdle the priority rollbacks run before the expired transaction logs are replayed.",
+		Explanation:  "Decides the reachability of the recovery routines from the public entry point, and that recovery finishes what it starts: (R1) typestate of the maintenance guard: every early-return guard of Transaction.onIdle reads Transaction fields; at each call site of onIdle at least one writer of each such field must be able to have executed, otherwise the guard is constant and everything behind it is dead code. The field writers, the begun-state gates of their callers (`!HasBegun()` -> error) and the gate of the calling function are derived from the code; (R2) call-graph reachability: Transaction.Begin reaches onIdle, which reaches doPriorityRollbacks, processExpiredTransactionLogs and transactionLog.rollback; (R3) recovery removes what it recovered: every exit of transactionLog.rollback for a non-nil transaction id passes TransactionLog.Remove of that id; doPriorityRollbacks and priorityRollback remove the priority log only after the registry write of the pre-images succeeded (shared with C08.R3), and the pre-images were logged before the flip (shared with C08.R2); (R4) the log replay undoes every persistent commit step in every last-logged state in which the live rollback undoes it (undo table shared with C07.R1); (R5) the log reader imposes no record-size limit that the writer does not have. (R6) the count delta survives the log encoding (shared with C06.R7); (R7) in onIdle the priority rollbacks run before the expired transaction logs are replayed. (R8) = C06.R8.",
 		DoesNotCover: "Ages and timers (5 minutes / 1 hour) are runtime quantities and are not decided; nor is the content of what recovery restores beyond C08's ordering rules.",
 	}, runC09)
 }
